@@ -220,10 +220,12 @@ static int w_enabled(int opi)
         if (g_mode == MODE_C06 && W.consumed > 0 && W.nreconf < 1 && o->a < 3 && !W.seg2) return 1;
         return 0; }
     case T_CTR: {
-        int exotic = o->a >= 3;
+        /* FF..FE: the lane counters of the first batch wrap, so that winding them back (a key or tweak change inside the batch) borrows */
+        int is_fe = CTLEN[o->a] == g_bs && !CTNULL[o->a] && CTRS[o->a][g_bs - 1] == 0xFE && CTRS[o->a][0] == 0xFF;
+        int exotic = o->a >= 3 && !(g_mode == MODE_C06 && is_fe);
         if (!live) return 0;
         if (exotic && g_mode != MODE_C05 && !(g_mode == MODE_C14 && CTNULL[o->a])) return 0;   /* (C14: the NULL forms are valid calls and must return 1) */
-        if (g_mode == MODE_C06 && o->a > 1) return 0;
+        if (g_mode == MODE_C06 && o->a > 1 && !is_fe) return 0;
         if (exotic && (W.ntweak > 0 || (W.keyidx >= 0 && !is_simple_key(W.keyidx)))) return 0;
         if (W.consumed == 0 && W.nctr == 0) return 1;
         {   /* a later set_counter (after data, or straight after a first one): the plain counters, the NULL forms
